@@ -167,6 +167,75 @@ def ob_two_scopes_no_overblocking(steps: List[int], addrs: List[bool], ng: int, 
     return "ok" if nontrivial else "ok-trivial"
 
 
+class RLConf(RateLimiter):
+    """RateLimiter configured through its REAL constructor / parse_options from option text; only the clock is replaced."""
+
+    def __init__(self, options):
+        self.now = 0
+        super().__init__(options)
+
+    def _timestamp(self):
+        return self.now
+
+
+_MIN_TEXT = ("1/min", "2/min")
+_SEC_TEXT = ("1/s", "2/s")
+
+
+@obligation(funcs=["rate_limiter.RateLimiter.__init__", "rate_limiter.RateLimiter.parse_options", "rate_limiter.RateLimiter.parse_option",
+                   "rate_limiter.RateLimiter.is_limited", "rate_limiter.RateLimiter.evaluate_rules"],
+            timeout=(240, 900), params=range(4),
+            bounds="limiter built by the real constructor from option text: a long rule ng/min in scope global (or for address A) and a "
+                   "short rule ni/s in scope ip on the same command, either order of the scopes in the options dict, 1<=n<=2; "
+                   "<=K arrivals, integer clock steps 0..70, two addresses")
+def ob_configured_two_scopes(steps: List[int], addrs: List[bool], kg: int, ki: int) -> str:
+    """
+    pre: 1 <= len(steps) <= K and len(addrs) == len(steps)
+    pre: all(0 <= s <= 70 for s in steps)
+    pre: 0 <= kg < 2 and 0 <= ki < 2
+    post: _.startswith("ok")
+    """
+    logging.disable(logging.CRITICAL)
+    from vk.ob import pick
+    ng, ni = kg + 1, ki + 1
+    ip_first, long_is_address = bool(PARAM & 1), bool(PARAM & 2)  # one process per member
+    long_scope = A if long_is_address else "global"
+    if ip_first:
+        options = {"ip": {"EVENT": pick(_SEC_TEXT, ki)}, long_scope: {"EVENT": pick(_MIN_TEXT, kg)}}
+    else:
+        options = {long_scope: {"EVENT": pick(_MIN_TEXT, kg)}, "ip": {"EVENT": pick(_SEC_TEXT, ki)}}
+    rl = RLConf(options)
+    if rl.rules.get(long_scope) != {"EVENT": [(60, ng)]} or rl.rules.get("ip") != {"EVENT": [(1, ni)]}:
+        return "parse_options(%r) = %r" % (options, rl.rules)
+    log = _drive(rl, steps, addrs, [True] * len(steps))
+    nontrivial = False
+    passed_long = []            # timestamps the long rule let through
+    passed_ip = {A: [], B: []}  # timestamps the ip rule let through, per address
+    for i in range(len(log)):
+        t, a, c, limited = log[i]
+        long_applies = (a == A) or not long_is_address
+        l_full = long_applies and _count_window(passed_long, t, 60) >= ng
+        i_full = False
+        if not l_full:
+            if long_applies:
+                passed_long.append(t)
+            if not (long_is_address and a == A):  # a specific-address rule stops the evaluation of the generic ones
+                i_full = _count_window(passed_ip[a], t, 1) >= ni
+                if not i_full:
+                    passed_ip[a].append(t)
+        want = l_full or i_full
+        if limited:
+            nontrivial = True
+        if limited and not want:
+            return "refused at t=%d although no applicable rule had passed n messages: %r" % (t, log)
+        if not limited and want:
+            return "admitted at t=%d beyond a limit (long rule %d/min in scope %s, ip rule %d/s): %r" % (t, ng, long_scope, ni, log)
+    adm_long = [t for (t, a, c, l) in log if not l and (a == A or not long_is_address)]
+    if _worst_window(adm_long, 60) > ng:
+        return "admitted more than n=%d in one 60 s window of the %s rule: %r" % (ng, long_scope, log)
+    return "ok" if nontrivial else "ok-trivial"
+
+
 @obligation(funcs=["rate_limiter.RateLimiter.is_limited"],
             timeout=(90, 600),
             bounds="<=K arrivals from A and B, rules: address A (1,na) with na in {-1,1,2}, ip (1,ni), global (1,ng)")
